@@ -37,6 +37,15 @@ def run_harness(ctx, binary, inp, tag):
     return vf.read_ndjson(fout)
 
 
+def big(x, unit):
+    """a TLA+ expression for x that TLC can parse (TLC rejects literals >= 2^31 even when they are never evaluated)"""
+    if x < 2 ** 31:
+        return str(x)
+    q, r = divmod(x, unit)
+    assert q < 2 ** 31 and r < 2 ** 31 and unit < 2 ** 31
+    return "K_OntSupply * %d + %d" % (q, r)
+
+
 def k_module(net, k, fixed):
     seq = lambda xs: "<<" + ", ".join(str(x) for x in xs) + ">>"
     return """------------------------------ MODULE Unbind_K ------------------------------
@@ -52,10 +61,10 @@ K_D == %d
 K_GD == %d
 K_Gap == %d
 K_OntSupply == %d
-K_OngSupply == %d
+K_OngSupply == %s
 K_GapAtDeadline == %s
 =============================================================================
-""" % (net, net, k["T"], seq(k["rate"]), seq(k["newrate"]), k["D"], k["GD"], k["gap"], k["ont_supply"], k["ong_supply"], "TRUE" if fixed else "FALSE")
+""" % (net, net, k["T"], seq(k["rate"]), seq(k["newrate"]), k["D"], k["GD"], k["gap"], k["ont_supply"], big(k["ong_supply"], k["ont_supply"]), "TRUE" if fixed else "FALSE")
 
 
 def g_module(points):
@@ -91,13 +100,8 @@ def grid(ctx, k, nrand):
     return small, big
 
 
-_stage_lock = threading.Lock()
-
-
-def apalache(ctx, files, invs, timeout=1500):
-    """one apalache-mc run checking several invariants (own runner so that runs can go in parallel)"""
-    with _stage_lock:
-        d = ctx.stage_specs(files)
+def apalache(ctx, d, invs, timeout=1800):
+    """one apalache-mc run (in the staged directory d) checking several invariants"""
     cmd = ["apalache-mc", "check", "--length=0", "--init=Init", "--next=Next", "--inv=" + ",".join(invs),
            "--out-dir=" + os.path.join(d, "apa-out"), "--run-dir=" + os.path.join(d, "apa-run"), "Unbind_Apa.tla"]
     t = time.time()
@@ -125,27 +129,37 @@ def apalache(ctx, files, invs, timeout=1500):
     return res
 
 
-def prove(ctx, jobs, workers):
-    """jobs: list of (tag, files, invs).  Returns {tag: result}; a failing batch is re-run one invariant at a time."""
-    out = {}
-    with concurrent.futures.ThreadPoolExecutor(max_workers=workers) as ex:
-        futs = {ex.submit(apalache, ctx, files, invs): (tag, files, invs) for tag, files, invs in jobs}
-        retry = []
-        for f in concurrent.futures.as_completed(futs):
-            tag, files, invs = futs[f]
+class Prover:
+    """Runs apalache jobs (tag, files, invs) in background threads; a failing batch of several invariants is
+    re-run one invariant at a time so that every refuted obligation gets its own counterexample."""
+
+    def __init__(self, ctx, jobs, workers):
+        self.ctx = ctx
+        self.ex = concurrent.futures.ThreadPoolExecutor(max_workers=workers)
+        self.futs = {}
+        for tag, files, invs in jobs:  # staging is done here, sequentially (ctx.stage_specs is not thread-safe)
+            d = ctx.stage_specs(files)
+            self.futs[self.ex.submit(apalache, ctx, d, invs)] = (tag, files, invs)
+
+    def wait(self):
+        ctx = self.ctx
+        out = {}
+        retry = {}
+        for f in concurrent.futures.as_completed(self.futs):
+            tag, files, invs = self.futs[f]
             r = f.result()
             ctx.log("apalache %s %s: %s in %.0fs%s" % (tag, ",".join(invs), r["status"], r["wall"],
                                                       (" cex=%s" % r["cex"]) if r["cex"] else ""))
             if r["status"] == "violation" and len(invs) > 1:
                 for inv in invs:
-                    retry.append((tag + ":" + inv, files, [inv]))
+                    d = ctx.stage_specs(files)
+                    retry[self.ex.submit(apalache, ctx, d, [inv])] = tag + ":" + inv
                 out[tag] = {"status": "split", "invs": invs, "wall": r["wall"], "cmd": r["cmd"]}
             else:
                 out[tag] = r
-        futs = {ex.submit(apalache, ctx, files, invs): (tag, files, invs) for tag, files, invs in retry}
-        for f in concurrent.futures.as_completed(futs):
-            tag, files, invs = futs[f]
+        for f in concurrent.futures.as_completed(retry):
             r = f.result()
-            ctx.log("apalache %s: %s in %.0fs%s" % (tag, r["status"], r["wall"], (" cex=%s" % r["cex"]) if r["cex"] else ""))
-            out[tag] = r
-    return out
+            ctx.log("apalache %s: %s in %.0fs%s" % (retry[f], r["status"], r["wall"], (" cex=%s" % r["cex"]) if r["cex"] else ""))
+            out[retry[f]] = r
+        self.ex.shutdown()
+        return out
